@@ -136,7 +136,7 @@ def run_job(engine, job):
     if (e == 'h_c11_pos' and job['cfg']['kind'] >= 6) or (e == 'h_c11_misc' and job['cfg']['what'] == 0 and job['cfg']['type'] == 1):
         S, fc, cells = event_file(); files = {'in.c3d': gen.to_engine_cells(cells)}; assume = S.cons
     fn = {'h_c11_pos': lambda s, j, st: pos_obligations(s, j, st, eng, fc), 'h_c11_name': lambda s, j, st: name_obligations(s, j, st, eng), 'h_c11_misc': lambda s, j, st: misc_obligations(s, j, st, eng)}[e]
-    return std_run(engine, job, fn, 'c11.end', ID, job['name'], files=files, assume=assume)
+    return std_run(engine, job, fn, 'c11.end', ID, job['name'], files=files, assume=assume, fatal_as='violation')
 
 def native_confirm(nat, v):
     out, sec = native_sections(nat, v['replay'])
